@@ -89,12 +89,25 @@ class SLock:
     def __init__(self, sched):
         self.s = sched
 
-    def acquire(self, *_a, **_k):
+    def acquire(self, *a, **k):
+        """ block=True, timeout=None like multiprocessing.Lock.acquire.  A timed or
+        non-blocking acquire of a lock that is held MAY fail: the scheduler decides
+        (deterministically from the step count), so that code relying on a timeout never
+        expiring is exercised with the timeout expiring. """
         s = self.s
         w = s.wid()
         if w is None:
             return True
+        block = k.get('block', a[0] if a else True)
+        timeout = k.get('timeout', a[1] if len(a) > 1 else None)
+        may_fail = (not block) or timeout is not None
         while True:
+            if may_fail and s.lock_owner is not None:
+                s.pause('ready')
+                if s.lock_owner is not None and (not block or s.steps % 2 == 0):
+                    s.log('acq_timeout', w)
+                    return False
+                continue
             s.pause('ready' if s.lock_owner is None else 'blocked')
             if s.lock_owner is None:
                 s.lock_owner = w
@@ -107,6 +120,8 @@ class SLock:
         if w is None:
             return
         s.pause()
+        if s.lock_owner != w:
+            s.log('rel_unowned', w)
         s.lock_owner = None
         s.log('rel', w)
 
